@@ -51,6 +51,11 @@ def jobs(tier, seed):
                         # a missing coordinate after the caches were filled by a complete evaluation elsewhere
                         add(d, ["eval"], vs[0], sup, pre=[["eval", "root", "q"]])
                         add(d, ["eval"], vs[0], sup, pre=[["fwd", "root", "q"]])
+    # Derivative of expressions with at most one variable, evaluated at a Point (complete, with extra coordinates, empty for variable-free trees)
+    for d in [["Add"], ["const", 3], ["Add", ["const", 2], ["Multiply"]], ["NthPower", fam.X, 2], ["Multiply", fam.X, ["Exponential", fam.X]], fam.X]:
+        vs = rt.variables_of(d)
+        for sup in (vs, vs + ["extra1"], vs + ["a0", "zz"]):
+            add(d, ["deriv", "deriv_early", "deriv_after_asexp", "eval"], (vs or ["t"])[0], sup)
     for d in fam.f1(fam.V, tier):
         vs = rt.variables_of(d)
         add(d, ROUTES[:7], (vs or ["t"])[0], vs)
